@@ -195,6 +195,31 @@ static void bomb_tail_case(size_t zeros, size_t tail, int layers, size_t limit, 
     hx_report_verdicts(&S, &O, PROPS);
     hx_emit_sample(DT.desc);
 }
+/* long bodies: more than 256 output buffers (2 MiB) of decompressed data, where the decompression time accounting samples the clock.  The clock is
+ * FROZEN (no time passes), at several epochs: the accounting must see zero time spent whatever the absolute time is, and the payload must arrive intact. */
+static void long_case(int ce, int side, uint32_t epoch, size_t chunk) {
+    if (case_id++ % hx_shard_n != hx_shard_i || hx_deadline_hit()) return;
+    static hx_buf pay, z, q, r; hb_reset(&z); hb_reset(&q); hb_reset(&r);
+    if (!pay.n) for (int i = 0; i < 3 * 21846; i++) hb_printf(&pay, "%07d: forty-eight bytes of text in every line.\r\n", i);       /* 3 MiB */
+    encode(ce, pay.p, pay.n, &z);
+    hx_buf *w = side ? &r : &q;
+    if (side) { hb_puts(&q, "GET /z HTTP/1.1\r\nHost: h\r\n\r\n"); hb_printf(&r, "HTTP/1.1 200 OK\r\nContent-Encoding: %s\r\n", CENAME[ce]); }
+    else { hb_printf(&q, "POST /z HTTP/1.1\r\nHost: h\r\nContent-Encoding: %s\r\n", CENAME[ce]); hb_puts(&r, "HTTP/1.1 200 OK\r\nContent-Length: 0\r\n\r\n"); }
+    hb_printf(w, "Content-Length: %zu\r\n\r\n", z.n); hb_put(w, z.p, z.n);
+    hx_script_init(&S); S.cfg.req_decomp = 1; S.inspect = inspect;
+    DT.side = side; DT.check_bound = 0; DT.expect_exact = 1; DT.alt = NULL; DT.invalid_lzma = 0; DT.want = pay.p; DT.wn = pay.n;
+    snprintf(DT.desc, sizeof DT.desc, "%s body, payload 3 MiB of text (384 output buffers), Content-Encoding: %s, Content-Length framing, %zu-byte chunks, frozen clock at epoch %u", side ? "response" : "request", CEDESC[ce], chunk, epoch);
+    S.label = DT.desc;
+    S.nops = 0; if (epoch) hx_script_add(&S, OP_EPOCH, NULL, epoch);
+    if (!chunk) { hx_script_add(&S, OP_Q, q.p, (uint32_t) q.n); hx_script_add(&S, OP_S, r.p, (uint32_t) r.n); }
+    else {
+        for (size_t o = 0; o < q.n; o += chunk) hx_script_add(&S, OP_Q, q.p + o, (uint32_t) (q.n - o < chunk ? q.n - o : chunk));
+        for (size_t o = 0; o < r.n; o += chunk) hx_script_add(&S, OP_S, r.p + o, (uint32_t) (r.n - o < chunk ? r.n - o : chunk));
+    }
+    hx_script_add(&S, OP_CLOSE, NULL, 0);
+    if (hx_run(&S, &O)) return;
+    n_exec++; n_calls += O.ncalls; cx_set_add(&outs, hx_fnv(O.cbtrace.p, O.cbtrace.n, 0)); hx_report_verdicts(&S, &O, PROPS);
+}
 /* the decompression time limit: the virtual clock jumps past it at every possible gettimeofday ordinal; after the jump
  * the remaining data must be passed through, never lost, and nothing may crash */
 static void clock_case(int at) {
@@ -232,6 +257,10 @@ static int worker(int argc, char **argv) {
         for (int layers = 1; layers <= 2; layers++) for (int li = 0; li < 3; li++) for (size_t ch = 1; ch <= 5; ch += (ch < 3 ? 1 : 2))
             for (int zi = 0; zi < 2; zi++) bomb_tail_case(zi ? (12u << 20) : (1u << 20), thorough ? 7000 : 4000, layers, TLIM[li], ch);
         for (int at = 1; at <= 40; at++) clock_case(at);
+        /* epochs: the harness default (1e9), 1, and three present-day values whose microsecond count truncated to 32 bits is positive / negative / small */
+        static const uint32_t EPOCH[] = { 0, 1, 1790000636u, 1790000000u, 1790000123u };
+        static const int LCE[] = { CE_GZIP, CE_DEFLATE_ZLIB, CE_LZMA };
+        for (int side = 1; side >= 0; side--) for (int c = 0; c < 3; c++) for (int e = 0; e < 5; e++) for (int ch = 0; ch < 2; ch++) long_case(LCE[c], side, EPOCH[e], ch ? 1460 : 0);
     }
     hx_emit_stat("executions", n_exec); hx_emit_stat("calls", n_calls); hx_emit_stat("cases", hx_shard_i == 0 ? case_id : 0); hx_emit_stat("distinct_outcomes", (long long) outs.cnt);
     hx_emit_max("bomb_worst_excess_over_bound", bomb_worst_excess);
